@@ -321,6 +321,14 @@ func propC13(c *Ctx) {
 			runLexCase(c, "E", []lexeme{{sym, S}, {let, W}, {" ", Sp}, {sym, S}, {let + "_", W}})
 		}
 	}
+	K := tokenizers.Keyword
+	for _, x := range []struct {
+		text  string
+		class int
+	}{{"li\u212ae", W}, {"o\u212a", W}, {"I\u017f", K}, {"i\u017f", K}, {"l\u0131ke", K}, {"fal\u017fe", K}, {"i\u0307s", W}, {"stra\u00dfe", W}, {"nu\u0142l", W}, {"x\u01c5", W}, {"tr\u00fce", W}, {"\u00ecs", W}} {
+		runLexCase(c, "e", []lexeme{{"a", W}, {" ", Sp}, {x.text, x.class}, {" ", Sp}, {"b", W}})
+		runLexCase(c, "e", []lexeme{{x.text, x.class}})
+	}
 	for _, k := range []string{"Y", "Z"} {
 		runLexCase(c, k, []lexeme{{"a", W}, {" ", Sp}, {"=:=", S}, {" ", Sp}, {"b", W}})
 		runLexCase(c, k, []lexeme{{"a", W}, {" ", Sp}, {"=", S}, {":", S}})
